@@ -12,6 +12,16 @@ def run(ctx):
     if rc != 0 or not rows:
         ctx.problem("correspondence", "go harness C06", out[-1500:])
         return
+    # verification from several goroutines at once (large payloads; valid VAAs and VAAs changed after signing): monitors only
+    rcc, outc, tracec = core.harness_pkg(ctx, "vaa", "^TestVerifC06Conc$", race=(ctx.tier == "thorough"))
+    crows = [r for r in core.read_jsonl(tracec) if r.get("k") == "c06conc"]
+    if rcc != 0 or not crows:
+        ctx.problem("correspondence", "go harness C06 (concurrent callers)", outc[-1500:])
+    for r in crows:
+        ctx.cov["concurrent_verifications"] = r.get("calls")
+        for m in r.get("mon", [])[:2]:
+            ctx.problem("monitor", m, "observed on the implementation (%d goroutines)" % r.get("workers", 0), concrete=True,
+                        replay={"concurrent_callers": r.get("workers"), "calls": r.get("calls"), "monitor": m}, key="conc:" + m.split(" ")[4])
     ctx.evaluations = len(rows)
     ctx.distinct = len({(tuple(r["addrs"]), tuple((s["i"], s["d"]) for s in r["sigs"])) for r in rows if r["sigs"]})
     ctx.rule = ("guardian lists of length 0..255 (distinct keys, every fifth with a repeated address), random ascending signer subsets signed with real secp256k1 keys, "
